@@ -41,7 +41,12 @@ META = dict(
          "twelfth of the cases: functools.wraps decorators whose wrapper is async around sync or sync around async, "
          "functools.partial objects, instances with a sync or async __call__, a plain def returning a coroutine / an object "
          "with __await__ / a Future, an async def returning an un-awaited coroutine - the body behind a returned awaitable reports whether its dependencies were already "
-         "finalised when it ran); non-trivial iff some execution opened >= 2 yielding dependencies, or a "
+         "finalised when it ran) x a worker that stops while executions are in flight (a fifteenth of the cases: the real "
+         "Receiver.listen() over a scripted broker.listen(), stopped by its max_tasks_to_execute budget / the end of the "
+         "broker's listen() / the finish event, wait_tasks_timeout of 0.5-60 ms (or none) expiring while task functions, sync "
+         "functions in the thread pool with a virtual duration, awaiting dependency teardowns, set_result are under way, "
+         "Receiver configured directly or through the worker command line, the loop running on until every execution and "
+         "the pool have settled); non-trivial iff some execution opened >= 2 yielding dependencies, or a "
          "dependency failed while opening, or the body timed out; distinct by case content",
     trusted_base=["model: coq/theories/Deps.v (hand-written from taskiq/receiver/receiver.py run_task/callback and "
                   "taskiq_dependencies/ctx.py close/resolver)",
@@ -107,8 +112,182 @@ def add_callables(case, p=.085):
     return case
 
 
+# --------------------------------------------------------------------------- a worker that stops while executions are in flight
+WTT = (0.001, 0.003, 0.006, 0.01, 0.015, 0.02, 0.03, 0.04, 0.06, 0.09)
+SYNC_DUR = (1000, 5000, 12000, 30000, 60000)
+
+
+def _scale(case, f):
+    """every delay of the plan f times as long (what takes 50 ms takes f * 50 ms)"""
+    for m in case["msgs"]:
+        for key in ("start", "timeout", "save_pause", "tpause"):
+            if m.get(key):
+                m[key] = m[key] * f
+        m["pauses"] = [None if x is None else x * f for x in m.get("pauses") or [None]]
+        m["dur"] = [x * f for x in m.get("dur") or []]
+
+
+def add_stops(case, p=.09):
+    """A worker that STOPS while executions are in flight (`path` of kind `listen`, see deps_driver): the real
+    Receiver.listen() runs, is told to stop (its max_tasks_to_execute budget is used up by the last delivery / the
+    broker's listen() ends after it / the finish event is set), waits `wait_tasks_timeout` for what is in flight and
+    returns while the loop runs on.  p of the cases that have no `path` yet (about a fifteenth of the stream); picked and
+    filled by a generator of its own seeded by the case content, so every other case of a seed is what it was before.
+    The delays are such that the wait expires in every phase of an execution: sync task functions get a (virtual)
+    duration in the thread pool, teardowns of async generators / async context managers really await."""
+    rr = L.case_rng(case, "stop")
+    if rr.random() >= p or case.get("path"):
+        return case
+    msgs, tasks, nodes = case["msgs"], case["tasks"], case["nodes"]
+    n = len(msgs)
+    prop, validate, ack = bool(case.get("propagate", True)), bool(case.get("validate", True)), case.get("ack", "when_saved")
+    how = rr.choice(["budget", "budget", "exhausted", "event"])
+    # sync task functions that are still running in the pool when the wait expires
+    for t, spec in enumerate(tasks):
+        mine = [m for m in msgs if m["task"] == t]
+        plain = spec.get("fn") is None and not any(mu["op"] == "requeue" for m in mine for mu in m.get("muts") or [])
+        if plain and not spec.get("sync") and rr.random() < .4:
+            spec["sync"] = True
+        if spec.get("sync") or spec.get("fn") in ("partial_sync", "callable_sync"):
+            for m in mine:
+                # a time limit on a sync function is outside what taskiq supports (it says so in its log)
+                m.pop("timeout", None)
+                if rr.random() < .85:
+                    m["dur"] = [rr.choice(SYNC_DUR) for _ in range(rr.choice([1, 1, 2]))]
+    # teardowns that really await
+    if rr.random() < .6:
+        for m in msgs:
+            m["pauses"] = [x if x else rr.choice([2000, 5000, 9000, 14000]) for x in m.get("pauses") or [None]]
+    slow = rr.random() < .5
+    if slow or rr.random() < .5:
+        for nd in nodes:
+            if nd["style"] in ("gen", "cm") and rr.random() < .5:
+                nd["style"] = {"gen": "agen", "cm": "acm"}[nd["style"]]
+    if slow:
+        # a teardown that takes a while (flushing, committing): every awaiting teardown step of the execution
+        for m in msgs:
+            m["tpause"] = rr.choice([15000, 30000, 60000])
+    x = rr.random()
+    wtt = None if x < .05 else 0.0 if x < .09 else rr.choice(WTT[:6] if how == "event" else WTT if slow else WTT[:8])
+    stop = {"how": how}
+    if how == "event":
+        # the prefetcher looks at the finish event every 0.3 s: the executions are made that slow
+        f = rr.choice([15, 30])
+        _scale(case, f)
+        stop["after"] = rr.choice([0, 0, 100000, 350000, 700000])
+        wtt = wtt and round(wtt * f, 6)
+    kw = {"wait_tasks_timeout": wtt}
+    # (max_async_tasks = 1: the runner does not look at its queue before the only execution has ended - nothing is ever in
+    # flight when it learns that it is to stop)
+    a = rr.choice([2, 3, 10, 100, 0, None, 1])
+    if a is not None:
+        kw["max_async_tasks"] = a
+    kw["max_prefetch"] = rr.choice([0, 0, 1, 3])
+    if how == "budget":
+        kw["max_tasks_to_execute"] = n
+    path = {"kind": "listen", "kwargs": kw, "stop": stop, "pool": rr.choice([1, 2, 2, 4])}
+    if rr.random() < .3:
+        # the same configuration given on the worker command line (the real argument parser and start_listen compute the
+        # Receiver's keyword arguments; `argv` wins over `kwargs`, which stay for the shrinker)
+        o = {"no_parse": not validate, "no_propagate": not prop, "P": kw["max_prefetch"], "wtt": wtt,
+             "N": n if how == "budget" else None}
+        if ack != "when_saved" or rr.random() < .5:
+            o["ack_type"] = ack if rr.random() < .7 else ack.upper()
+        if a is not None:
+            o["A"] = a
+        path["argv"] = L.cli_argv(o)
+    case["path"] = path
+    return case
+
+
+def phase_at(case, d, mark):
+    """what execution d was doing when the worker's listen() returned (log position `mark`)"""
+    before = [e for g, e in d.ev if g < mark]
+    kinds = [e[0] for e in before]
+    if "cb_start" not in kinds:
+        return None
+    if "cb_done" in kinds:
+        return "over"
+    spec = case["tasks"][d.msg["task"]]
+    closes = [e for e in before if e[0] == "close"]
+    done = [e for e in before if e[0] == "closed"]
+    opened = kinds.count("own")
+    if closes and len(done) < opened:
+        st = case["nodes"][closes[-1][2]]["style"]
+        waiting = len(closes) > len(done) and st in ("agen", "acm")
+        return "in dependency teardown, %s" % ("inside an awaiting teardown step" if waiting else "between two steps")
+    if "task_start" in kinds and "task_end" not in kinds:
+        pool = spec.get("sync") or spec.get("fn") in ("partial_sync", "callable_sync")
+        return "in a sync task function (thread pool)" if pool else "in the task function"
+    if "task_end" in kinds or "fail" in kinds:
+        if opened and not closes:
+            return "between the task function and the teardown"
+        return "after the teardown (on_error / set_result / ack)"
+    if "begin" in kinds:
+        return "resolving dependencies / waiting for a thread"
+    return "before dependency resolution (parsing / pre_execute)"
+
+
+def stop_profile(case, obs, ex):
+    """evidence keys: how the worker stopped and what was in flight when its listen() returned"""
+    path = case.get("path") or {}
+    if path.get("kind") != "listen":
+        return ["worker stop: none (no listening worker in the case)"]
+    st = obs.get("stop") or {}
+    wtt = st.get("wait_tasks_timeout")
+    keys = ["worker stop: %s%s, wait_tasks_timeout %s" % (
+        {"budget": "max_tasks_to_execute used up", "exhausted": "the broker's listen() ended",
+         "event": "finish event"}.get(st.get("how"), st.get("how")),
+        " (did not come about: finish event after everything had settled)" if st.get("fallback") else "",
+        "none" if wtt is None else "0" if not wtt else "set")]
+    if st.get("mark") is None or st.get("fallback"):
+        return keys
+    phases = [phase_at(case, d, st["mark"]) for d in ex]
+    flying = [p for p in phases if p not in (None, "over")]
+    keys.append("worker stop (%s): listen() returned with %s executions in flight" % (
+        st.get("how"), len(flying) if len(flying) < 3 else "3+"))
+    keys += ["worker stop: listen() returned while an execution was %s" % p for p in flying]
+    for d, p in zip(ex, phases):
+        if p not in (None, "over") and d.closes:
+            keys.append("worker stop: execution in flight at the stop had open dependencies (%s)" % (
+                "thread pool" if "sync" in p else "teardown" if "teardown" in p else "other phases"))
+    return keys
+
+
+def stop_grid():
+    """thorough tier: every way the worker stops x what is in flight when its wait expires (an awaiting teardown of an async
+    generator / async context manager over two more dependencies, a sync function in the pool, an async task function) x how
+    the task function ends x propagate x ack type; two overlapping deliveries plus one that is over before the stop"""
+    out = []
+    for how in ("budget", "exhausted", "event"):
+        for flying in ("agen", "acm", "sync", "body"):
+            for oc in ("return", "raise"):
+                for prop in (True, False):
+                    for ack in ("when_executed", "when_saved"):
+                        st = flying if flying in ("agen", "acm") else "gen"
+                        nodes = [{"style": "gen", "ctx": False, "subs": [], "swallow": False},
+                                 {"style": st, "ctx": True, "subs": [[0, True]], "swallow": False},
+                                 {"style": "cm", "ctx": False, "subs": [], "swallow": False}]
+                        msgs = [{"task": 0, "start": 0 if i < 2 else 3000, "pauses": [1000], "tpause": 30000,
+                                 "dur": [1000] if flying in ("agen", "acm") or i == 0 else [40000],
+                                 "ackable": "sync" if i % 2 else "async", "kw": True, "outcome": oc} for i in range(3)]
+                        msgs[0]["tpause"] = 1000
+                        kw = {"wait_tasks_timeout": 0.012, "max_async_tasks": 10, "max_prefetch": 0}
+                        if how == "budget":
+                            kw["max_tasks_to_execute"] = 3
+                        case = {"nodes": nodes, "tasks": [{"deps": [[1, True], [2, True]], "ctx": True, "sync": flying == "sync"}],
+                                "msgs": msgs, "propagate": prop, "ack": ack, "middleware": True, "via_inmemory": False,
+                                "path": {"kind": "listen", "kwargs": kw, "stop": {"how": how}, "pool": 2}}
+                        if how == "event":
+                            _scale(case, 30)
+                            case["path"]["stop"]["after"] = 0
+                            kw["wait_tasks_timeout"] = 0.12
+                        out.append(case)
+    return out
+
+
 def gen_case(r):
-    return add_callables(L.gen_case(r))
+    return add_stops(add_callables(L.gen_case(r)))
 
 
 def fn_grid():
@@ -204,6 +383,17 @@ def oracle(case, d):
       * the exception that ends up as the stored error of the execution is the one thrown into the dependencies when
         propagation is enabled (a stored error with propagation disabled / no stored error: the clauses of oracle_c12)."""
     out = list(L.oracle_c12(case, d))
+    if d.outcome == "cancelled":
+        # the task function was cancelled at one of its awaits.  deps_lib takes that for the time limit of the message
+        # (TimeoutError); when somebody else cancelled the execution, the exception found IS the CancelledError, and a
+        # dependency that saw it saw the execution's exception
+        out = [f for f in out if not (f[0] == "a different exception than the execution's was thrown into the dependency"
+                                      and f[1].get("saw") == "CancelledError")]
+    if isinstance(d.cb_done, str) and d.cb_done.startswith("CancelledError"):
+        # callback() ended with the CancelledError of whoever cancelled its task: that is what a cancelled coroutine does,
+        # not a failure of callback().  What the statement says about the dependencies of such an execution - each
+        # finalised exactly once, completely, nothing made visible before - is judged by the other clauses.
+        out = [f for f in out if f[3].get("kind") != "crash"]
     prop = bool(case.get("propagate", True))
     teardown = [g for g, _, _ in d.closes] + [g for g, _ in d.closed]
     if teardown:
@@ -247,7 +437,39 @@ def reductions(case):
                 c = json.loads(json.dumps({k: v for k, v in case.items() if k != "_comment"}))
                 c["tasks"][t]["fn"] = simple
                 out.append(c)
-    return out + _lib_reductions(case)
+    path = case.get("path") or {}
+    if path.get("kind") == "listen":
+        def variant(fn):
+            c = json.loads(json.dumps({k: v for k, v in case.items() if k != "_comment"}))
+            if fn(c) is not False and c != case:
+                out.append(c)
+        if path.get("argv") is not None:
+            variant(lambda c: c["path"].pop("argv"))
+        for key in ("max_async_tasks", "max_prefetch"):
+            if (path.get("kwargs") or {}).get(key) is not None and path.get("argv") is None:
+                variant(lambda c, key=key: c["path"]["kwargs"].pop(key))
+        if path.get("pool") != 2:
+            variant(lambda c: c["path"].update(pool=2))
+        if (path.get("stop") or {}).get("how") == "exhausted" and path.get("argv") is None:
+            variant(lambda c: (c["path"]["stop"].update(how="budget"),
+                               c["path"]["kwargs"].update(max_tasks_to_execute=len(c["msgs"]))) and None)
+        if (path.get("stop") or {}).get("after"):
+            variant(lambda c: c["path"]["stop"].update(after=0))
+    return out + [_fix_budget(c) for c in _lib_reductions(case)]
+
+
+def _fix_budget(c):
+    """a worker that stops because its budget is used up: the budget follows the number of deliveries"""
+    path = c.get("path") or {}
+    if path.get("kind") == "listen" and (path.get("stop") or {}).get("how") == "budget":
+        n = len(c["msgs"])
+        if (path.get("kwargs") or {}).get("max_tasks_to_execute"):
+            path["kwargs"]["max_tasks_to_execute"] = n
+        argv = path.get("argv") or []
+        for k, tok in enumerate(argv[:-1]):
+            if tok == "--max-tasks-per-child":
+                argv[k + 1] = str(n)
+    return c
 
 
 L.reductions = reductions        # shrink_failures looks it up in its own module
@@ -281,7 +503,7 @@ def explore(ctx, rep, cases, label):
         rep.count("ack:%s" % c.get("ack", "when_saved"))
         for key in L.path_profile(c) + L.live_profile(c, o, ex):
             rep.count(key)
-        for key in L.sharing_profile(c, ex) + fn_profile(c, ex):
+        for key in L.sharing_profile(c, ex) + fn_profile(c, ex) + stop_profile(c, o, ex):
             rep.count(key)
         for d in ex:
             for what, observed, expected, sig in oracle(c, d):
@@ -344,7 +566,7 @@ def run(ctx):
     cases = [gen_case(r) for _ in range(ctx.n(1200, 40000))]
     broken = explore(ctx, rep, cases, "main")
     if not ctx.quick:
-        grid = L.grid_cases() + fn_grid()
+        grid = L.grid_cases() + fn_grid() + stop_grid()
         rep.extra["systematic_grid_cases"] = len(grid)
         broken = explore(ctx, rep, grid, "grid") or broken
     sigs = {"subcontext_teardown_order": L.sig_subcontext_teardown_order}
@@ -370,6 +592,11 @@ def replay(ctx, path):
     lits = []
     if obs.get("live"):
         print("run_receiver_task ran for real:", json.dumps(obs["live"]))
+    if obs.get("stop"):
+        print("the worker stopped:", json.dumps(obs["stop"]))
+        for d in ex:
+            if obs["stop"].get("mark") is not None:
+                print("  execution %d when listen() returned: %s" % (d.i, phase_at(c, d, obs["stop"]["mark"])))
     for d in ex:
         print("execution %d: opens %s closes %s tree %s" % (
             d.i, [(x, d.inst_node[x]) for x in d.opens], [(x[1], d.inst_node[x[1]], x[2]) for x in d.closes],
